@@ -93,3 +93,31 @@ def count_per_iteration(body, header, is_event):
         memo[b] = r
         return r
     return go(header) or (0, 0)
+
+
+def variant_switch(body, dag, b):
+    """for `switchInt(discriminant(<place>))` at block b: (subject expression of the place, {variant idx: target}, otherwise, local, projection)"""
+    t = body.term(b)
+    if t[0] != "Switch": return None
+    l = op_local(t[1])
+    if l is None: return None
+    d = body.single_def(l)
+    if not d or d[2][0] != "Discr": return None
+    pl = d[2][1]
+    return (dag.place(pl), {v: tg for (v, tg) in t[2]}, t[3], pl["l"], pl["p"])
+
+
+class PrefixedCtx:
+    """adapter: lets one property module re-use another module's rules under its own rule id (obligation keys keep the original rule name inside)"""
+    def __init__(self, ctx, prefix):
+        self._c = ctx; self._p = prefix
+        self.fx = ctx.fx; self.tier = ctx.tier; self.config = ctx.config; self.pid = ctx.pid
+    def ob(self, rule, key, ok, site="", detail="", nontrivial=True, undecided=False):
+        return self._c.ob(self._p, f"{rule}|{key}", ok, site, detail, nontrivial, undecided)
+    def undecided(self, rule, key, site="", detail=""):
+        return self._c.undecided(self._p, f"{rule}|{key}", site, detail)
+    def floor(self, rule, minimum): pass
+    def note(self, s): self._c.note(s)
+    def assume(self, s): self._c.assume(s)
+    def body(self, key): return self._c.body(key)
+    def body_of(self, f): return self._c.body_of(f)
